@@ -323,10 +323,24 @@ class Folder:
         raise Refuse(f"unbound name {n.id}")
 
     def e_Tuple(self, n, env):
-        return tuple(self.ev(e, env) for e in n.elts)
+        return tuple(self._elts(n.elts, env))
+
+    def _elts(self, elts, env):
+        out = []
+        for e in elts:
+            if isinstance(e, ast.Starred):
+                v = self.ev(e.value, env)
+                if isinstance(v, Arr):
+                    v = v.data
+                if not isinstance(v, (list, tuple)):
+                    raise Refuse("starred element of a non-sequence")
+                out.extend(v)
+            else:
+                out.append(self.ev(e, env))
+        return out
 
     def e_List(self, n, env):
-        return [self.ev(e, env) for e in n.elts]
+        return self._elts(n.elts, env)
 
     def e_Set(self, n, env):
         return frozenset(self.ev(e, env) for e in n.elts)
@@ -603,13 +617,22 @@ class Folder:
                     if getattr(t, "cls", None) is not None and isinstance(f, ast.Attribute) and t.params and t.params[0] in ("self", "cls") \
                             and all(not isinstance(x, Sym) for x in list(args) + list(kw.values())):
                         recv = self.ev(f.value, env)
-                        pure = not any(isinstance(x, (ast.Attribute, ast.Subscript)) and isinstance(getattr(x, "ctx", None), (ast.Store, ast.Del)) for x in ast.walk(t.node)) \
-                            and not any(isinstance(x, ast.Call) and isinstance(x.func, ast.Attribute) and isinstance(x.func.value, ast.Name) and x.func.value.id == t.params[0] for x in ast.walk(t.node))
-                        if isinstance(recv, Obj) and pure:
-                            # a small predicate / accessor of the class on concrete arguments (e.g. self._is_none(self.time))
-                            sub = Folder(max_steps=2000)
-                            sub.func_stack.append(t.node)
-                            return sub.call(t.node, [recv] + args, kw)
+                        def _stores_state(fn):
+                            for x in ast.walk(fn):
+                                if isinstance(x, (ast.Attribute, ast.Subscript)) and isinstance(getattr(x, "ctx", None), (ast.Store, ast.Del)):
+                                    b = x
+                                    while isinstance(b, (ast.Attribute, ast.Subscript)):
+                                        b = b.value
+                                    if isinstance(b, ast.Name) and b.id == t.params[0]:
+                                        return True
+                            return False
+                        if isinstance(recv, Obj) and not _stores_state(t.node) and len(self.func_stack) < 6:
+                            # a helper of the class that does not write object state (predicate, accessor, extracted piece of a computation)
+                            sub = Folder(symbolic=True, max_steps=20000)
+                            sub.func_stack = list(self.func_stack)
+                            r = sub.call(t.node, [recv] + args, kw)
+                            self.trace.extend(sub.trace)
+                            return r
                 except Refuse:
                     pass
         if self.symbolic:
